@@ -148,6 +148,84 @@ func OnceDo(o *sync.Once, f func(), site int) {
 	s.unlock(o, false)
 }
 
+// OnceFunc, OnceValue and OnceValues replace the functions of package sync of the same
+// name: their sync.Once would otherwise live inside the standard library, where a second
+// caller blocks on a real mutex while the first is parked inside f.
+func OnceFunc(f func(), site int) func() {
+	var o sync.Once
+	return func() { OnceDo(&o, f, site) }
+}
+
+func OnceValue[T any](f func() T, site int) func() T {
+	var o sync.Once
+	var v T
+	return func() T {
+		OnceDo(&o, func() { v = f() }, site)
+		return v
+	}
+}
+
+func OnceValues[T1, T2 any](f func() (T1, T2), site int) func() (T1, T2) {
+	var o sync.Once
+	var v1 T1
+	var v2 T2
+	return func() (T1, T2) {
+		OnceDo(&o, func() { v1, v2 = f() }, site)
+		return v1, v2
+	}
+}
+
+// PoolGet / PoolPut replace sync.Pool's methods inside a simulation. What a pool holds
+// belongs to the run that put it there: a timer or channel made in one synctest bubble must
+// never surface in the next run of the same process (the Go runtime kills the process for
+// that), and a run must not depend on what earlier runs left behind. Whether Get reuses an
+// item or allocates is decided by the tape - a real pool may be emptied by any GC - and
+// which of the pooled items it hands out as well. Put happens-before the Get that returns
+// the item, as package sync promises.
+func PoolGet(p *sync.Pool, site int) any {
+	s, t := simTask()
+	if s == nil {
+		return p.Get()
+	}
+	s.yield(site, false)
+	s.mu.Lock()
+	items := s.pools[p]
+	var x any
+	got := false
+	if n := len(items); n > 0 && s.tape.Choose(4) != 0 {
+		i := s.tape.Choose(n)
+		x = items[i]
+		items[i] = items[n-1]
+		s.pools[p] = items[:n-1]
+		got = true
+		s.hb.acquire(t, s.hb.obj(p))
+	}
+	s.mu.Unlock()
+	if got {
+		return x
+	}
+	if p.New != nil {
+		return p.New()
+	}
+	return nil
+}
+
+func PoolPut(p *sync.Pool, x any, site int) {
+	s, t := simTask()
+	if s == nil {
+		p.Put(x)
+		return
+	}
+	s.yield(site, false)
+	s.mu.Lock()
+	if s.pools == nil {
+		s.pools = map[*sync.Pool][]any{}
+	}
+	s.pools[p] = append(s.pools[p], x)
+	s.hb.release(t, s.hb.obj(p))
+	s.mu.Unlock()
+}
+
 // ---- channels
 
 // Held carries the value received by one case of an instrumented select.
